@@ -43,7 +43,7 @@ class C20(Check):
     trusted = ("harness/h_dist.c: every rank is impersonated in one process through the myrank argument of the init "
                "functions; data_map is replaced by a zero-padded array so that an out-of-range slot is observed instead "
                "of corrupting the heap; each data_of result is destroyed again so that every call builds a fresh "
-               "parsec_data_t; a 150 ms / 5 s watchdog reports non-terminating loops",)
+               "parsec_data_t; a watchdog on the CPU time of the harness thread (not wall time) reports non-terminating loops; a hang of the vector init is reported only after it was confirmed by a second run of the same init with a 10x larger limit",)
     assumptions = ("int arithmetic does not overflow (sizes in the generator keep every product below 2^31)",
                    "symmetric collections: lower storage needs lnt <= lmt, upper storage a square tile grid (outside "
                    "this domain the slot can leave the data map: C20_sym_nonsquare_refuted); such cases are run for "
